@@ -1,10 +1,12 @@
 """C20: server/tnetstrings.py dump/parse and server/tnet.py tnet_machine/tnet_from  vs  Cpppo.Tnet (Lean).
 
 Cases (JSON):
-  {"op": "rt", "v": <val>, "tail": <hex>}                 dump(v); parse(dump(v) + tail)
-  {"op": "parse", "data": <hex>}                          parse(arbitrary bytes)
-  {"op": "stream", "chunks": [<hex>...], "vals": [<val>...] | null, "tail": <hex>}
-                                                          tnet_from() fed the chunks by a scripted recv, then EOF
+  {"op": "rt", "v": <val>, "tail": <hex>, "enc": <codec>} dump(v, encoding=E); parse(dump + tail, encoding=E)
+  {"op": "parse", "data": <hex>, "enc": <codec>}          parse(arbitrary bytes, encoding=E)
+  {"op": "stream", "chunks": [<hex>...], "vals": [<val>...] | null, "tail": <hex>,
+   "ignore": <hex>, "seps": [<hex>...] | absent}          tnet_from(ignore=...) fed the chunks by a scripted recv,
+                                                          then EOF; seps[i] = separators in front of message i
+<codec> is utf8 | latin1 | ascii | utf16 (absent = utf8), the `encoding=` option given to BOTH dump and parse.
 <val> is a tagged list: ["i", "<decimal>"], ["f", "<float.hex()|nan|inf|-inf>"], ["b", bool], ["n"],
   ["y", "<hex>"], ["t", [code points]], ["L", [<val>...]], ["D", [[[key code points], <val>]...]]
 """
@@ -168,19 +170,32 @@ def same_value(tokens, v):
     return n == len(tokens) and canon(got) == canon(v)
 
 
+CODECS = {"utf8": "utf-8", "latin1": "latin-1", "ascii": "ascii", "utf16": "utf-16"}
+
+
+def enc_of(c):
+    return c.get("enc") or "utf8"
+
+
+def cp_limit(enc):
+    return {"latin1": 256, "ascii": 128}.get(enc)
+
+
 def is_scalar(c):
     return 0 <= c < 0xD800 or 0xE000 <= c < 0x110000
 
 
-def in_scope(v):
-    """what dump() documents as serialisable: text of Unicode scalar values, ASCII dictionary keys"""
+def in_scope(v, enc="utf8"):
+    """what dump() documents as serialisable: text the codec can encode (Unicode scalar values; below
+    256 / 128 for latin-1 / ascii), ASCII dictionary keys"""
     k = v[0]
     if k == "t":
-        return all(is_scalar(c) for c in v[1])
+        lim = cp_limit(enc)
+        return all(is_scalar(c) and (lim is None or c < lim) for c in v[1])
     if k == "L":
-        return all(in_scope(x) for x in v[1])
+        return all(in_scope(x, enc) for x in v[1])
     if k == "D":
-        return all(all(c < 128 for c in key) and in_scope(x) for key, x in v[1])
+        return all(all(c < 128 for c in key) and in_scope(x, enc) for key, x in v[1])
     return True
 
 
@@ -210,16 +225,16 @@ REJECT = (AssertionError, ValueError)      # UnicodeError is a ValueError
 # --------------------------------------------------------------------------------------------------
 # the real code
 # --------------------------------------------------------------------------------------------------
-def real_parse_line(data):
+def real_parse_line(data, enc="utf8"):
     from cpppo.server import tnetstrings
     try:
-        value, rest = tnetstrings.parse(data)
+        value, rest = tnetstrings.parse(data, encoding=CODECS[enc])
     except REJECT:
         return "reject"
     return " ".join(enc_py(value)) + " / " + hx(rest)
 
 
-def real_stream(chunks):
+def real_stream(chunks, ignore=b""):
     """tnet_from() over a scripted network.recv: the chunks, then EOF"""
     import cpppo
     from cpppo.server import tnet
@@ -235,7 +250,7 @@ def real_stream(chunks):
     try:
         source = cpppo.chainable()
         try:
-            for msg in tnet.tnet_from(None, ("verif", 0), source=source):
+            for msg in tnet.tnet_from(None, ("verif", 0), source=source, ignore=ignore or None):
                 out.append(" ".join(enc_py(msg)) + "@%d" % source.sent)
             out.append("end@%d" % source.sent)
         except REJECT + (NonTerminal,):
@@ -257,14 +272,14 @@ class FloatSpy:
         return float(payload)
 
 
-def noncanonical_float(data):
+def noncanonical_float(data, enc="utf8"):
     """True when real parse(data) converts a '^' payload that is not str() of the resulting float"""
     from cpppo.server import tnetstrings
     spy = FloatSpy()
     tnetstrings.float = spy
     try:
         try:
-            tnetstrings.parse(data)
+            tnetstrings.parse(data, encoding=CODECS[enc])
         except Exception:
             pass
     finally:
@@ -357,6 +372,36 @@ def gen_val(rng, d, big=False, bad=False, budget=None):
     return ["D", items]
 
 
+LATIN_ALPHA = [0x61, 0x3A, 0x31, 0x2C, 0x7E, 0x20, 0x00, 0x7F, 0x80, 0xA0, 0xE9, 0xFC, 0xDF, 0xFF, 0xC3, 0xA9]
+ASCII_ALPHA = [0x61, 0x3A, 0x31, 0x2C, 0x7E, 0x20, 0x00, 0x7F, 0x5D, 0x24]
+
+
+def fit_val(v, enc, rng, bad=False):
+    """bring the text of a value into the range of the codec (a few stay outside when `bad`: dump must raise)"""
+    lim = cp_limit(enc)
+    if lim is None:
+        return v
+    k = v[0]
+    if k == "t":
+        alpha = LATIN_ALPHA if enc == "latin1" else ASCII_ALPHA
+        return ["t", [c if c < lim or (bad and rng.random() < 0.3) else alpha[c % len(alpha)] for c in v[1]]]
+    if k == "L":
+        return ["L", [fit_val(x, enc, rng, bad) for x in v[1]]]
+    if k == "D":
+        return ["D", [[key, fit_val(x, enc, rng, bad)] for key, x in v[1]]]
+    return v
+
+
+IGNORES = [b"", b"", b"", b"\n", b"\n", b"\r\n", b" \n", b"\x00", b"\n\x00\t"]
+RAW_IGNORES = IGNORES + [b"1", b":", b",\n", b"0\n"]
+
+
+def gen_seps(rng, ignore):
+    if not ignore:
+        return b""
+    return bytes(rng.choice(ignore) for _ in range(rng.choice([0, 0, 1, 1, 1, 2, 2, 3, 5])))
+
+
 def small_values():
     """exhaustive small scope"""
     leaves = ([["i", s] for s in ("0", "-1", "7", "10", "-10", "123456789")]
@@ -382,6 +427,7 @@ def small_values():
         yield ["D", [[[0x78], ["D", [[[0x79], ["L", [a]]]]]]]]
 
 
+ENC_MIX = ["utf8"] * 5 + ["latin1"] * 2 + ["utf16"] * 2 + ["ascii"]
 TAILS = [b"", b"", b"0", b"5", b":", b",", b"~", b"12", b"7:", b"3:ab", b"3:abc,", b"\n", b"x", b"00", b"9:abc"]
 STREAM_TAILS = [b"", b"", b"0", b"5", b"12", b"7:", b"3:ab", b"12:0123456789", b"1"]
 MUT_ALPHA = b"0123456789:,#~$]}!^? -+_ax\x00\xc3\xa9\xff"
@@ -456,21 +502,29 @@ class C20(Suite):
         for i, v in enumerate(small_values()):
             tails = TAILS if (i % 7 == 0 or not quick) else [TAILS[i % len(TAILS)], b""]
             for t in dict.fromkeys(tails):
-                yield {"op": "rt", "v": v, "tail": hx(t)}
+                yield {"op": "rt", "v": v, "tail": hx(t), "enc": "utf8"}
+            # the same values through the other codecs (text brought into the codec's range)
+            for enc in ("latin1", "utf16", "ascii"):
+                if enc == "ascii" and i % 3:
+                    continue
+                yield {"op": "rt", "v": fit_val(v, enc, rng), "tail": hx(TAILS[(i + len(enc)) % len(TAILS)]), "enc": enc}
         # --- rt: random
         for i in range(6000 if quick else 60000):
             d = rng.choice([0, 1, 1, 2, 2, 3, 4, 6 if quick else 8])
-            v = gen_val(rng, d, big=rng.random() < 0.04, bad=rng.random() < 0.05)
+            bad = rng.random() < 0.05
+            v = gen_val(rng, d, big=rng.random() < 0.04, bad=bad)
+            enc = rng.choice(ENC_MIX)
+            v = fit_val(v, enc, rng, bad)
             tail = rng.choice(TAILS) if rng.random() < 0.7 else mutate(rng, tnetstrings.dump(to_py(gen_leaf(rng))))
-            yield {"op": "rt", "v": v, "tail": hx(tail)}
+            yield {"op": "rt", "v": v, "tail": hx(tail), "enc": enc}
         # deep nesting
         for dp in ([30, 120] if quick else [30, 60, 120, 200]):
             v = ["i", "5"]
             for j in range(dp):
                 v = ["L", [v]] if j % 2 else ["D", [[[0x6B], v]]]
-            yield {"op": "rt", "v": v, "tail": "-"}
+            yield {"op": "rt", "v": v, "tail": "-", "enc": "utf8"}
         # --- stream: structured messages
-        nstream = 400 if quick else 1800
+        nstream = 400 if quick else 1400
         for i in range(nstream):
             vals = []
             for _ in range(rng.choice([1, 1, 2, 2, 3])):
@@ -480,61 +534,74 @@ class C20(Suite):
                 if v[0] in ("y", "t") and plen(v) > (60 if quick else 400) and rng.random() < 0.8:
                     v = ptrunc(v, rng.choice([0, 1, 9, 10, 11, 24]))
                 vals.append(v)
-            tail = rng.choice(STREAM_TAILS)
-            data = b"".join(tnetstrings.dump(to_py(v)) for v in vals) + tail
+            ignore = rng.choice(IGNORES)
+            seps = [gen_seps(rng, ignore) for _ in vals]
+            tail = gen_seps(rng, ignore) + rng.choice(STREAM_TAILS)
+            data = b"".join(sp + tnetstrings.dump(to_py(v)) for sp, v in zip(seps, vals)) + tail
             for label, chunks in chunkings(rng, data, tier, every=(i % 2 == 0)):
-                yield {"op": "stream", "chunks": [c.hex() for c in chunks], "vals": vals, "tail": hx(tail)}
-        # the empty stream, and the ten-digit boundary of the length prefix split everywhere
-        yield {"op": "stream", "chunks": [], "vals": [], "tail": "-"}
+                yield {"op": "stream", "chunks": [c.hex() for c in chunks], "vals": vals, "tail": hx(tail),
+                       "ignore": hx(ignore), "seps": [hx(sp) for sp in seps]}
+        # the empty stream
+        yield {"op": "stream", "chunks": [], "vals": [], "tail": "-", "ignore": "-", "seps": []}
         # --- malformed: exhaustive short strings
         alpha = b"01:,#~a -" if quick else b"012:,#~$a -_]"
         for n in range(0, 5 if quick else 6):
             for tup in itertools.product(alpha, repeat=n):
-                yield {"op": "parse", "data": hx(bytes(tup))}
-        salpha = b"01:,#~a" if quick else b"012:,#~$a ]"
+                yield {"op": "parse", "data": hx(bytes(tup)), "enc": "utf8"}
+        salpha = b"01:,#~a\n" if quick else b"012:,#~$a ]\n"
         for n in range(0, 4 if quick else 5):
             for tup in itertools.product(salpha, repeat=n):
                 b = bytes(tup)
-                yield {"op": "stream", "chunks": [b.hex()] if b else [], "vals": None, "tail": "-"}
+                for ignore in ((b"", b"\n") if b"\n" in b else (b"",)):
+                    yield {"op": "stream", "chunks": [b.hex()] if b else [], "vals": None, "tail": "-",
+                           "ignore": hx(ignore)}
+                    if ignore and len(b) >= 2:
+                        # every two-way split: a separator may begin a block
+                        for cut in range(1, len(b)):
+                            yield {"op": "stream", "chunks": [b[:cut].hex(), b[cut:].hex()], "vals": None,
+                                   "tail": "-", "ignore": hx(ignore)}
         # --- malformed: mutated dumps, raw parse and raw stream
         for i in range(10000 if quick else 80000):
-            v = gen_val(rng, rng.choice([0, 0, 1, 2, 3]))
-            if not in_scope(v):
+            enc = rng.choice(ENC_MIX)
+            v = fit_val(gen_val(rng, rng.choice([0, 0, 1, 2, 3])), enc, rng)
+            if not in_scope(v, enc):
                 continue
-            data = mutate(rng, tnetstrings.dump(to_py(v)) + rng.choice(TAILS))
-            if b"^" in data and noncanonical_float(data):
+            data = mutate(rng, tnetstrings.dump(to_py(v), encoding=CODECS[enc]) + rng.choice(TAILS))
+            if b"^" in data and noncanonical_float(data, enc):
                 continue
-            yield {"op": "parse", "data": hx(data)}
-        for i in range(1200 if quick else 6000):
+            yield {"op": "parse", "data": hx(data), "enc": enc}
+        for i in range(1200 if quick else 4500):
             vals = [gen_leaf(rng) for _ in range(rng.choice([1, 2, 3]))]
             vals = [ptrunc(v, rng.choice([0, 2, 10, 30])) if v[0] in ("y", "t") else v for v in vals]
-            data = b"".join(tnetstrings.dump(to_py(v)) for v in vals)
+            ignore = rng.choice(RAW_IGNORES)
+            data = b"".join(gen_seps(rng, ignore) + tnetstrings.dump(to_py(v)) for v in vals) + gen_seps(rng, ignore)
             data = mutate(rng, data) if rng.random() < 0.85 else data
             allc = list(chunkings(rng, data, "quick", every=False))
             two = [x for x in allc if x[0] == "2way"]
             for label, chunks in [x for x in allc if x[0] != "2way"] + two[:2 if quick else 4]:
-                yield {"op": "stream", "chunks": [c.hex() for c in chunks], "vals": None, "tail": "-"}
+                yield {"op": "stream", "chunks": [c.hex() for c in chunks], "vals": None, "tail": "-",
+                       "ignore": hx(ignore)}
 
     # ------------------------------------------------------------------------------------- protocol
     def model_line(self, c):
         if c["op"] == "rt":
-            return "tn.rt " + c["tail"] + " " + " ".join(enc_json(c["v"]))
+            return "tn.rt " + enc_of(c) + " " + c["tail"] + " " + " ".join(enc_json(c["v"]))
         if c["op"] == "parse":
-            return "tn.parse " + c["data"]
-        return "tn.stream " + (",".join(c["chunks"]) if c["chunks"] else "-")
+            return "tn.parse " + enc_of(c) + " " + c["data"]
+        return "tn.stream " + c.get("ignore", "-") + " " + (",".join(c["chunks"]) if c["chunks"] else "-")
 
     def impl(self, c):
         from cpppo.server import tnetstrings
         if c["op"] == "rt":
             try:
-                d = tnetstrings.dump(to_py(c["v"]))
+                d = tnetstrings.dump(to_py(c["v"]), encoding=CODECS[enc_of(c)])
             except REJECT:
                 return "reject"
             assert type(d) is bytes
-            return hx(d) + " " + real_parse_line(d + unhx(c["tail"]))
+            return hx(d) + " " + real_parse_line(d + unhx(c["tail"]), enc_of(c))
         if c["op"] == "parse":
-            return real_parse_line(unhx(c["data"]))
-        return real_stream([bytes.fromhex(h) for h in c["chunks"]])
+            return real_parse_line(unhx(c["data"]), enc_of(c))
+        return real_stream([bytes.fromhex(h) for h in c["chunks"]], unhx(c.get("ignore", "-")))
 
     # --------------------------------------------------------------------------------------- oracle
     _whole = {}
@@ -543,16 +610,18 @@ class C20(Suite):
         if out.startswith("harness-exception"):
             return out
         if c["op"] == "rt":
-            v = c["v"]
+            v, enc = c["v"], enc_of(c)
+            ok = in_scope(v, enc)
             if out == "reject":
-                return None if not in_scope(v) else "dump raised on a value of the supported types"
+                return None if not ok else "dump(encoding=%s) raised on a value of the supported types" % CODECS[enc]
             dumped, _, parsed = out.partition(" ")
             val, sep, rest = parsed.rpartition(" / ")
             if not sep or rest != c["tail"] or not same_value(val.split(" "), v):
-                if not in_scope(v):
+                if not ok:
                     return None
-                return "parse(dump(v)+tail) is not (v, tail): got %s" % parsed[:200]
-            if v[0] == "f" and in_scope(v):
+                return "parse(dump(v, encoding=%s)+tail, encoding=%s) is not (v, tail): got %s" % (
+                    CODECS[enc], CODECS[enc], parsed[:200])
+            if v[0] == "f" and ok:
                 x = to_py(v)
                 if repr(float(str(x))) != repr(x):
                     return "float(str(x)) != x"
@@ -560,11 +629,12 @@ class C20(Suite):
         if c["op"] == "parse":
             if out == "reject":
                 return None
-            # an accepted value of the supported types must itself survive dump/parse
+            # an accepted value of the supported types must itself survive dump/parse (same codec)
             from cpppo.server import tnetstrings
-            value, _rest = tnetstrings.parse(unhx(c["data"]))
+            codec = CODECS[enc_of(c)]
+            value, _rest = tnetstrings.parse(unhx(c["data"]), encoding=codec)
             try:
-                again, rest2 = tnetstrings.parse(tnetstrings.dump(value))
+                again, rest2 = tnetstrings.parse(tnetstrings.dump(value, encoding=codec), encoding=codec)
             except REJECT as exc:
                 return "a parsed value does not survive dump/parse: %s" % type(exc).__name__
             if rest2 != b"" or enc_py(again) != enc_py(value):
@@ -573,33 +643,44 @@ class C20(Suite):
         # stream
         chunks = [bytes.fromhex(h) for h in c["chunks"]]
         data = b"".join(chunks)
+        ignore = unhx(c.get("ignore", "-"))
         if len(chunks) > 1:
-            whole = self._whole.get(data)
+            key = (ignore, data)
+            whole = self._whole.get(key)
             if whole is None:
                 if len(self._whole) > 20000:
                     self._whole.clear()
-                whole = self._whole[data] = real_stream([data])
+                whole = self._whole[key] = real_stream([data], ignore)
             if whole != out:
-                return "chunking changes the outcome: whole=%s chunked=%s" % (whole[:120], out[:120])
+                return "chunking changes the outcome%s: whole=%s chunked=%s" % (
+                    " (ignore=%r)" % ignore if ignore else "", whole[:120], out[:120])
         if c["vals"] is not None:
+            # the stream is seps[0] dump(v0) seps[1] dump(v1) ... tail, the separators being symbols the
+            # caller asked tnet_from to ignore between messages: every message of a supported type must be
+            # delivered, with sent exactly at its end
             from cpppo.server import tnetstrings
             got = out.split(" ")
-            # regroup "<tokens...>@<sent>" items
             items, cur = [], []
             for tok in got:
                 cur.append(tok)
                 if "@" in tok or tok == "reject":
                     items.append(" ".join(cur))
                     cur = []
+            seps = [unhx(h) for h in c.get("seps") or ["-"] * len(c["vals"])]
+            if any(0x30 <= b <= 0x39 for b in ignore):
+                return None                          # ignorable digits: the length prefix itself is ambiguous
             pos = 0
             for i, v in enumerate(c["vals"]):
                 if not supported_by_stream(v) or not in_scope(v):
                     return None                      # the property says nothing from here on
-                pos += len(tnetstrings.dump(to_py(v)))
+                pos += len(seps[i]) + len(tnetstrings.dump(to_py(v)))
+                if not data.startswith(tnetstrings.dump(to_py(v)), pos - len(tnetstrings.dump(to_py(v)))):
+                    return None                      # (a shrunk or hand-written case that is not of this shape)
                 want = " ".join(enc_json(v)) + "@%d" % pos
                 if i >= len(items) or items[i] != want:
-                    return "message %d: want %s got %s" % (i, want[:120], (items[i] if i < len(items) else "nothing")[:120])
-            # all messages delivered: nothing of the tail may be reported as a further message unless it is one
+                    return "message %d%s: want %s got %s" % (
+                        i, " (ignore=%r)" % ignore if ignore else "", want[:120],
+                        (items[i] if i < len(items) else "nothing")[:120])
         return None
 
     # ------------------------------------------------------------------------------------- evidence
@@ -625,6 +706,9 @@ class C20(Suite):
             v = c["v"]
             kind = {"i": "int", "f": "float", "b": "bool", "n": "null", "y": "bytes", "t": "text",
                     "L": "list", "D": "dict"}[v[0]]
+            if enc_of(c) != "utf8":
+                below_dict = v[0] == "D" or (v[0] == "L" and any(x[0] == "D" for x in v[1]))
+                return "rt:%s:%s" % (enc_of(c), "dict" if below_dict else kind)
             if v[0] in ("L", "D"):
                 d = depth(v)
                 return "rt:%s:depth%s" % (kind, d if d < 4 else ("4-8" if d <= 8 else ">8"))
@@ -634,11 +718,13 @@ class C20(Suite):
                                         else "<1000" if n < 1000 else ">=1000")
             return "rt:" + kind
         if c["op"] == "parse":
-            return "parse:" + ("reject" if out == "reject" else "accept")
+            return "parse:%s%s" % ("" if enc_of(c) == "utf8" else enc_of(c) + ":", "reject" if out == "reject" else "accept")
         n = len(c["chunks"])
         data_len = sum(len(h) // 2 for h in c["chunks"])
         shape = "whole" if n <= 1 else "2way" if n == 2 else "bytewise" if n == data_len else "kway"
         kind = "raw" if c["vals"] is None else "msgs"
+        if c.get("ignore", "-") != "-":
+            kind += "+ignore"
         return "stream:%s:%s:%s" % (kind, shape, "reject" if out.endswith("reject") else "end")
 
     def shrink(self, c):
@@ -656,20 +742,34 @@ class C20(Suite):
             ch = c["chunks"]
             if c["vals"] is not None:
                 from cpppo.server import tnetstrings
+                ign = c.get("ignore", "-")
+                seps0 = c.get("seps") or ["-"] * len(c["vals"])
 
-                def rebuild(vals, tail):
-                    data = b"".join(tnetstrings.dump(to_py(v)) for v in vals) + unhx(tail)
-                    return {"op": "stream", "chunks": [data.hex()] if data else [], "vals": vals, "tail": tail}
+                def rebuild(vals, seps, tail, cut=None):
+                    data = b"".join(unhx(sp) + tnetstrings.dump(to_py(v)) for sp, v in zip(seps, vals)) + unhx(tail)
+                    chunks = [data] if data else []
+                    if cut is not None and 0 < cut < len(data):
+                        chunks = [data[:cut], data[cut:]]
+                    return {"op": "stream", "chunks": [x.hex() for x in chunks], "vals": vals, "tail": tail,
+                            "ignore": ign, "seps": seps}
                 vals = c["vals"]
+                cut = len(bytes.fromhex(ch[0])) if len(ch) >= 2 else None
                 if len(ch) > 2:
-                    yield rebuild(vals, c["tail"])
+                    yield rebuild(vals, seps0, c["tail"], cut)
+                if len(ch) == 2:
+                    yield rebuild(vals, seps0, c["tail"])
                 if c["tail"] != "-":
-                    yield rebuild(vals, "-")
+                    yield rebuild(vals, seps0, "-", cut)
                 for i in range(len(vals)):
                     if len(vals) > 1:
-                        yield rebuild(vals[:i] + vals[i + 1:], c["tail"])
+                        drop = len(unhx(seps0[i]) + tnetstrings.dump(to_py(vals[i])))
+                        yield rebuild(vals[:i] + vals[i + 1:], seps0[:i] + seps0[i + 1:], c["tail"],
+                                      None if cut is None else (cut - drop if i == 0 else cut))
+                    if seps0[i] != "-":
+                        sp = unhx(seps0[i])
+                        yield rebuild(vals, seps0[:i] + [hx(sp[1:])] + seps0[i + 1:], c["tail"], cut)
                     for w in shrink_val(vals[i]):
-                        yield rebuild(vals[:i] + [w] + vals[i + 1:], c["tail"])
+                        yield rebuild(vals[:i] + [w] + vals[i + 1:], seps0, c["tail"], cut)
             if c["vals"] is None:
                 data = b"".join(bytes.fromhex(h) for h in ch)
                 for i in range(len(data)):
